@@ -41,6 +41,9 @@ func genWriter(r *rand.Rand, n int, tier string, out *bufio.Writer) {
 		base := pick(r, []int{0, 10, 100, 400})
 		for j := range sizes {
 			sizes[j] = base + r.Intn(40)
+			if r.Intn(8) == 0 {
+				sizes[j] = 0 // a record with an empty block, also in the middle of a file
+			}
 		}
 		// a record of this size serializes to about 330 + size bytes
 		unit := int64(330 + base)
